@@ -3,6 +3,7 @@
 package c38
 
 import (
+	"bytes"
 	"encoding/binary"
 
 	"pgregory.net/rapid"
@@ -442,6 +443,16 @@ func genID(s src, c *cmdInput, nprepared int) {
 	}
 }
 
+// dropSemis replaces the semicolons of a random text (except in 1 of 25 texts): a semicolon together with a
+// control byte is the shape of finding C38-F1, and every such input leaves a spinning goroutine in the proxy
+// under test for the rest of the run; the shape is kept in the search, but rare.
+func dropSemis(s src, b []byte) []byte {
+	if s.pick("keep_semis", 25) == 24 {
+		return b
+	}
+	return bytes.ReplaceAll(b, []byte(";"), []byte(":"))
+}
+
 // genCmd appends one command; prepared holds the marker counts of the statements prepared so far in the case.
 func genCmd(s src, prepared *[]int) cmdInput {
 	c := cmdInput{Trunc: -1}
@@ -455,7 +466,7 @@ func genCmd(s src, prepared *[]int) cmdInput {
 		if k < len(queryTexts) {
 			c.Text = []byte(queryTexts[k])
 		} else if k == len(queryTexts) {
-			c.Text = s.bytes("query_bytes", 60)
+			c.Text = dropSemis(s, s.bytes("query_bytes", 60))
 			c.Mutated = true
 		} else {
 			c.Text = append([]byte("select '"), long('x', 70000)...) // unterminated 70 KB literal
@@ -467,7 +478,7 @@ func genCmd(s src, prepared *[]int) cmdInput {
 			c.Text = []byte(prepareTexts[k].sql)
 			*prepared = append(*prepared, prepareTexts[k].n)
 		} else {
-			c.Text = s.bytes("prepare_bytes", 60)
+			c.Text = dropSemis(s, s.bytes("prepare_bytes", 60))
 			c.Mutated = true
 			n := 0
 			for _, b := range c.Text {
